@@ -139,6 +139,8 @@ pub struct RunCfg {
     pub layout: Layout,
     /// re-discharge every final obligation of a path with a second solver (thorough tier)
     pub cross_check: bool,
+    /// dense mode: Some(k) = structured bit patterns (rotated by k) instead of pseudo-random constants
+    pub dense_pattern: Option<u64>,
 }
 impl Default for RunCfg {
     fn default() -> Self {
@@ -153,6 +155,7 @@ impl Default for RunCfg {
             n_worlds: 2,
             layout: LAYOUT_WIDE,
             cross_check: false,
+            dense_pattern: None,
         }
     }
 }
@@ -201,6 +204,7 @@ pub struct Ctx {
     pub in_obligation: bool,
     pub cross_defs: String,
     pub cross_queries: Vec<(String, bool)>,
+    pub dense_consts: HashMap<u32, U>,
 }
 
 thread_local! {
@@ -262,6 +266,7 @@ pub fn reset(cfg: RunCfg) {
             in_obligation: false,
             cross_defs: String::new(),
             cross_queries: vec![],
+            dense_consts: HashMap::new(),
             cfg,
         });
         for w in 0..ctx.cfg.n_worlds {
@@ -477,7 +482,10 @@ impl Ctx {
         let mut out = vec![];
         for vi in 0..self.var_names.len() as u32 {
             let n = self.intern(Node::Var(vi));
-            let v = self.eval(0, n);
+            let v = match self.dense_consts.get(&n) {
+                Some(d) => *d,
+                None => self.eval(0, n),
+            };
             out.push((self.var_names[vi as usize].clone(), v.to_hex()));
         }
         for (t, p) in self.parity.clone() {
